@@ -239,6 +239,8 @@ def run(ctx):
             tasks += [("fields", (cfg, df, [f], ctx.seed)) for f in range(8)]
         tasks.append(("misc", (cfg, ctx.seed)))
         tasks.append(("seqx", (cfg, 2)))
+        if cfg == "P":
+            tasks.append(("periodic", cfg))
     if ctx.thorough:
         tasks += [("pi24", (lo, lo + (1 << 18))) for lo in range(0, 1 << 24, 1 << 18)]
     ctx.pmap(w_any, tasks)
@@ -270,6 +272,35 @@ def w_seqx(arg):
     return acc.res()
 
 
+def w_periodic(cfg):
+    """relations between ALL fields at once: frames that are one octet repeated, or two octets repeated (what a stuck bit
+    pattern or an unmodulated carrier looks like - and a perfectly legal reply): for DF4/5/20/21 the fields, for DF5/21 the
+    identity code, for DF11 the capability, each read off the frame's own bits."""
+    acc = Acc()
+    firsts = list(range(0x20, 0x30)) + list(range(0xA0, 0xB0)) + list(range(0x58, 0x60))
+    k = 0
+    for b0 in firsts:
+        df = b0 >> 3
+        for b1 in [b0] + list(range(256)):
+            for n in ((56,) if df in (4, 5, 11) else (112,)):
+                k += 1
+                v = int(("%02X%02X" % (b0, b1)) * (n // 16) + (("%02X" % b0) if (n // 8) % 2 else ""), 16)
+                msg = vary_case(F.hexn(v, n), k)
+                head = v >> (n - 32)
+                fs_, dr_, iis, ids, code = (head >> 24) & 7, (head >> 19) & 31, (head >> 15) & 15, (head >> 13) & 3, head & 0x1FFF
+                acc.n += 1
+                if df in (4, 5, 20, 21):
+                    s = judge(cfg, "fsdrum", (df, fs_, dr_, iis, ids, msg))
+                    if not s and df in (5, 21):
+                        s = judge(cfg, "id", ("DF%d" % df, code, msg))
+                else:
+                    s = judge(cfg, "ca", ((head >> 24) & 7, msg))
+                if s:
+                    acc.bad(s + ":periodic_frame", {"cfg": cfg, "kind": "periodic", "p": [msg]})
+        acc.out.add((cfg, "periodic", b0))
+    return acc.res()
+
+
 def w_pi24(arg):
     """thorough: allcall.interrogator / capability / icao on a DF11 reply for EVERY value of the 24-bit overlay (the
     implementation run on the whole field, so that a value it singles out through something it computes is met)."""
@@ -292,6 +323,8 @@ def w_any(t):
         return w_seqx(t[1])
     if t[0] == "pi24":
         return w_pi24(t[1])
+    if t[0] == "periodic":
+        return w_periodic(t[1])
     return {"ids": w_ids, "fields": w_fields, "misc": w_misc}[t[0]](t[1])
 
 
@@ -300,5 +333,7 @@ def replay(case):
         from engine.util import replay_sequence
         s = replay_sequence(seq_thunks(case["tag"]), case["sequence"])
         return [(s, case)] if s else []
+    if case["kind"] == "periodic":
+        return [(s_, c_) for s_, c_ in w_periodic(case["cfg"])["viols"] if c_["p"] == case["p"]]
     s = judge(case["cfg"], case["kind"], tuple(case["p"]))
     return [(s, case), (s + ":overlay_sweep", case)] if s else []
